@@ -32,8 +32,9 @@ LEVEL_NOTE = 'Trusted: Lean kernel; correspondence of the multimap and converter
 TECHNIQUE = 'Lean 4 proofs over the multimap algebra (merge/rename/prepend/set) and the .image converter + pass-through oracle on the real converters'
 
 USER_SECS = {
-    'Unit': ['Description=d e', 'After=x.service', 'After=', 'After=y.service z.service', 'Wants=w.target', 'Requires=r.service', 'Documentation=man:foo(1)', 'SourcePath=/mine'],
-    'Service': ['Restart=always', 'Environment=A=1', 'Environment=', 'Environment=B=2', 'ExecStartPre=/bin/true', 'ExecStartPre=', 'TimeoutStartSec=900', 'KillMode=mixed',
+    'Unit': ['After=dev-disk-by\\x2dlabel-data.device', 'ConditionPathExists=/mnt/my\\sdata', 'Description="Data" container', 'Description=a\tb', "Description='q' \\\"r",
+             'Description=d e', 'After=x.service', 'After=', 'After=y.service z.service', 'Wants=w.target', 'Requires=r.service', 'Documentation=man:foo(1)', 'SourcePath=/mine'],
+    'Service': ['Environment="A=a b" B=\\x41', 'ExecStartPre=/bin/sh -c "echo \\"x\\" \\\\ y"', 'ExecReload=/bin/kill -HUP $MAINPID', 'Restart=always', 'Environment=A=1', 'Environment=', 'Environment=B=2', 'ExecStartPre=/bin/true', 'ExecStartPre=', 'TimeoutStartSec=900', 'KillMode=mixed',
                 'KillMode=control-group', 'Type=oneshot', 'Type=notify', 'SyslogIdentifier=me', 'RemainAfterExit=no', 'WorkingDirectory=/w', 'NotifyAccess=main', 'ExecStart=/bin/mine',
                 'Delegate=no'],
     'Install': ['WantedBy=default.target', 'WantedBy=', 'WantedBy=a.target b.target', 'Alias=x.service'],
